@@ -107,4 +107,6 @@ def main(tier):
     for suffix in ("zoneddatetime::ZonedDateTime::start_of_day_with_provider", "zoneddatetime::ZonedDateTime::hours_in_day_with_provider"):
         check_must_call_on_success(run, fx, fx["temporal_rs"].fn(CORE + suffix), ["TimeZone::get_start_of_day"], rule, suffix,
                                    "the first instant of the day is not taken from GetStartOfDay")
+    from ..rules import extra
+    extra.check_time_part_once(run, fx)
     return run.finish(EXPLANATION)
